@@ -664,7 +664,7 @@ def validate_domain(dom, objects=None, strict_types=True):
         eff_ok(a["eff"], scope)
 
 
-def validate_probes(dom, objects, probes):
+def validate_probes(dom, objects, probes, partial=False):
     w = World(dom, objects)
     _chk(len({n for n, _ in objects}) == len(objects), "duplicate object")
     _chk(not ({n for n, _ in objects} & {n for n, _ in dom.get("constants", [])}), "object named like a constant")
@@ -677,5 +677,6 @@ def validate_probes(dom, objects, probes):
         for f in pr["state"]["facts"]:
             _chk(tuple(f) in atoms, f"state fact {f}")
         keys = {tuple(k) for k, _ in pr["state"]["fluents"]}
-        _chk(keys == fls and len(keys) == len(pr["state"]["fluents"]), "state must define every ground fluent exactly once")
+        _chk((keys <= fls if partial else keys == fls) and len(keys) == len(pr["state"]["fluents"]),
+             "state must define every ground fluent exactly once" if not partial else "state defines an unknown fluent or one twice")
     return w
